@@ -11,6 +11,9 @@ INITS = [
     ("a and b share X", {"bind_0": 0, "bind_1": 0, "obj_0": True}),
     ("X stored unreferenced", {"obj_0": True}),
 ]
+# three threads, two cids: one holds cid X, one waits for it, the third takes and releases the unrelated cid Y
+# (a release notifies the condition shared by all cids: the waiter must re-check, not proceed)
+WAKE_INIT = ("a bound to X, Y stored unreferenced", {"bind_0": 0, "obj_0": True, "obj_1": True})
 
 
 def menu(w):
@@ -20,14 +23,25 @@ def menu(w):
         step.StoreObj(0, 0), step.StoreObj(1, 0), step.StoreObj(0, 1), step.StoreData(0),
         step.Tag(1, 0), step.Delete(0), step.Delete(1),
         step.DeleteIfInvalid(0, good, "sha256", len(X) + 1, True, ", wrong size"),
+        step.DeleteIfInvalid(1, hashlib.sha256(w.contents[1]).hexdigest(), "sha256", len(w.contents[1]) + 1, True,
+                             ", wrong size"),
     ]
+
+
+def wake_scenarios(w):
+    out = []
+    for combo in [(5, 4, 8), (4, 4, 8)]:
+        calls = [menu(w)[c] for c in combo]
+        calls[1] = step.Tag(1, 0)
+        out.append(("%s || from: %s" % (" || ".join(c.label for c in calls), WAKE_INIT[0]), WAKE_INIT[1], calls))
+    return out
 
 
 def scenarios_for(tier, triples=False):
     def fn(w):
         m = menu(w)
         out = []
-        idx = range(len(m))
+        idx = range(len(m) - 1)
         combos = list(itertools.combinations_with_replacement(idx, 2))
         if triples:
             # triples are chosen not to contain a pair with a listed known race (D6, D11, D12, D13), so that they look for
@@ -40,6 +54,8 @@ def scenarios_for(tier, triples=False):
                         not any(isinstance(c, (step.StoreObj, step.StoreData)) and c.k == 0 for c in calls):
                     continue        # documented precondition: the descriptor's object is present
                 out.append(("%s || from: %s" % (" || ".join(c.label for c in calls), iname), init, calls))
+        if not triples:
+            out += wake_scenarios(w)
         return out
     return fn
 
